@@ -2,6 +2,8 @@ package main
 
 import (
 	"fmt"
+	"go/parser"
+	"go/token"
 	"math/rand"
 	"os"
 	"path/filepath"
@@ -250,6 +252,10 @@ func c10(c *ctx) {
 	reqs := make([]feReq, len(texts))
 	for i, t := range texts {
 		reqs[i] = feReq{Text: t.text, Dump: true}
+		if strings.Contains(t.text, "import") && (t.kind == "valid" || t.kind == "replay") {
+			// imports must keep path and alias all the way into the emitted file
+			reqs[i].Compile, reqs[i].Code = true, true
+		}
 	}
 	results := fe.run(reqs)
 	for i, t := range texts {
@@ -307,6 +313,27 @@ func c10(c *ctx) {
 			c.run.Violate("tree:"+id, "the front end built a different tree than the text denotes: "+why, w(map[string]any{"difference": why}))
 			continue
 		}
+		if res.Code != "" && len(want.Imports) > 0 {
+			if fset, perr := parser.ParseFile(token.NewFileSet(), "g.go", res.Code, parser.ImportsOnly); perr == nil {
+				have := map[string]bool{}
+				for _, im := range fset.Imports {
+					name := ""
+					if im.Name != nil {
+						name = im.Name.Name
+					}
+					have[name+" "+im.Path.Value] = true
+				}
+				for _, im := range want.Imports {
+					if !have[im.Alias+" "+strconv.Quote(im.Path)] {
+						c.run.Violate("import:"+id, fmt.Sprintf("the import %s %q of the grammar is not in the generated file (path and alias must be kept)", im.Alias, im.Path), w(map[string]any{"emitted_imports": fmt.Sprint(have)}))
+						break
+					}
+				}
+				c.run.Count("emitted_import_blocks_checked", 1)
+			} else {
+				c.run.Violate("emitted:"+id, "the emitted file does not parse: "+perr.Error(), w(nil))
+			}
+		}
 		c.run.Count("trees_equal", 1)
 		if strings.ContainsAny(t.text, "\\\"[") {
 			c.run.Nontrivial("a" + id)
@@ -342,9 +369,9 @@ func c10(c *ctx) {
 		}
 	}
 	c.run.Count("malformed_texts_through_cli", ncli)
-	requireCov(c, "behaviour_executions", "behaviour_lit_matched_other_case", "behaviour_negclass:ok", "trees_equal", "rejected_by_both", "accepted_by_reader", "texts_mutant", "malformed_texts_through_cli")
+	requireCov(c, "behaviour_executions", "behaviour_lit_matched_other_case", "behaviour_negclass:ok", "trees_equal", "emitted_import_blocks_checked", "rejected_by_both", "accepted_by_reader", "texts_mutant", "malformed_texts_through_cli")
 	c.run.Rule = "monitor 1 (meaning through behaviour): grammars rich in literals, classes, negated and case-insensitive classes over an alphabet of quote, bracket, dash, backslash, caret, control and Latin-1 characters are printed with random spelling variants (both arrows, # and // comments and blank lines wherever spacing is allowed, every escape spelling incl. upper-case letters, octal, \\0x hex, raw vs escaped, single vs double quotes, redundant parentheses) and the generated parsers must behave like the reference interpreter of the intended AST; " +
-		"monitor 2 (tree equality): every accepted text is also read by an independent hand-written reader of the documented syntax and the rule tree built by the real front end (obtained through the tree package's exported methods) must equal the reader's tree node by node, incl. package, imports with alias, type, state, header comments; " +
+		"monitor 2 (tree equality): every accepted text is also read by an independent hand-written reader of the documented syntax and the rule tree built by the real front end (obtained through the tree package's exported methods) must equal the reader's tree node by node, incl. package, imports with alias, type, state, header comments, and the import block of the file Compile emits must still contain every import of the grammar with its alias; " +
 		"monitor 3 (rejection): syntax-level mutants of valid texts (replace/delete/insert/truncate/duplicate/swap, injected empty literals/classes, bad escapes, unbalanced braces, missing final newline) and random strings over the syntax alphabet: the reader rejects => peg must reject with an error (no panic, no process death), the reader accepts => trees must be equal; a sample of malformed texts also goes through the CLI. " +
 		"distinct_nontrivial = distinct accepted texts containing an escape, a class or a double-quoted literal, plus distinct mutated/random texts rejected by both."
 	c.run.Assume("the independent reader takes its rules from docs/peg-file-syntax.md and, where the docs only show examples, from the grammar of the language in peg.peg lines 22-129 read as a PEG; case-insensitivity is ASCII letter folding (DESIGN 6.3)")
